@@ -501,4 +501,131 @@ theorem BInv.newBlock_commit (b : Block) (k : Nat) (hk : 0 < k) (hfit : b.padN +
         exact ⟨by omega, hinc.2.1 i (by omega)⟩)
   exact this.1.congr (by intro s n; simp [hp])
 
+/-! ### accounting -/
+
+/-- accounting of one block: `area_used` is the number of set `used` bits; an empty-flagged block holds nothing -/
+structure BCnt (b : Block) : Prop where
+  cnt : b.areaUsed = b.used.count true
+  emp : b.empty = true → b.areaUsed = b.padN
+
+theorem no_spans_of_unused {b : Block} {S} (hI : BCore b S) (hC : BCnt b) (h : b.areaUsed = b.padN) : ∀ s n, ¬ S s n := by
+  intro s n hS
+  obtain ⟨i1, i2, i3⟩ := hI.inside s n hS
+  have hs := (hI.used s (by omega)).mpr (Or.inr ⟨s, n, hS, by omega, by omega⟩)
+  have hc := hC.cnt
+  by_cases hp : b.pad = true
+  · have h0 := (hI.used 0 hI.area).mpr (Or.inl ⟨hp, rfl⟩)
+    have hp1 := padN_pos b hp
+    have : s = (s - 1) + 1 := by omega
+    rw [this] at hs
+    have := count_two_of_bits b.used (s - 1) h0 hs
+    omega
+  · simp at hp
+    have := padN_zero b hp
+    have := count_pos_of_bit b.used s hs
+    omega
+
+theorem BCnt.clear (b : Block) (h0 : 0 < b.areaSize) : BCnt b.clear := by
+  constructor
+  · simp [Block.clear, count_replicate_set, Block.padN, h0]
+  · intro _; rfl
+
+theorem BCnt.tryAlloc_none {b b' : Block} {k : Nat} (h : BCnt b) (ht : b.tryAlloc k = (b', none)) : BCnt b' := by
+  unfold Block.tryAlloc at ht
+  split at ht
+  · simp at ht
+  · split at ht
+    · split at ht
+      · split at ht
+        · simp at ht
+        · split at ht
+          · simp at ht; subst ht; exact ⟨h.cnt, h.emp⟩
+          · simp at ht; exact ht ▸ h
+      · simp at ht; exact ht ▸ h
+    · simp at ht; exact ht ▸ h
+
+theorem BCnt.markAllocated {b : Block} {idx k : Nat} (hc : b.areaUsed = b.used.count true) (hend : idx + k ≤ b.used.length)
+    (hfree : ∀ j, idx ≤ j → j < idx + k → bit b.used j = false) : BCnt (b.markAllocated idx (idx + k)) := by
+  constructor
+  · have := count_setRange_true b.used idx (idx + k) (by omega) hend hfree
+    simp [this, hc]
+  · intro he
+    exfalso
+    unfold Block.markAllocated at he
+    simp only at he
+    split at he <;> simp at he
+
+theorem BCnt.markReleased {b : Block} {S} {s0 n0 : Nat} (hI : BInv b S) (hC : BCnt b) (hS : S s0 n0) :
+    BCnt (b.markReleased s0 (s0 + n0)) := by
+  obtain ⟨i1, i2, i3⟩ := hI.inside s0 n0 hS
+  have hne : b.empty = false := by
+    cases he : b.empty
+    · rfl
+    · exact absurd hS (no_spans_of_unused hI.toBCore hC (hC.emp he) s0 n0)
+  have hcount := count_setRange_false b.used s0 (s0 + n0) (by omega) (by rw [hI.lenU]; exact i3) (by
+    intro j a c
+    exact (hI.used j (by omega)).mpr (Or.inr ⟨s0, n0, hS, a, c⟩))
+  have e1 : s0 + n0 - s0 = n0 := by omega
+  constructor
+  · simp [e1]; have := hC.cnt; omega
+  · intro he
+    unfold Block.markReleased at he
+    simp only [e1, hne] at he
+    simp only [markReleased_areaUsed, markReleased_padN, e1]
+    by_cases hA : (b.incremental && b.searchStart == s0 + n0) = true
+    · simp [hA] at he; exact he
+    · simp only [hA] at he
+      by_cases hB : b.areaUsed - n0 = b.padN
+      · exact hB
+      · simp [hB, hne] at he
+
+theorem BCnt.markShrunk {b : Block} {S} {s0 n0 m : Nat} (hI : BInv b S) (hC : BCnt b) (hS : S s0 n0) (hmn : m < n0) :
+    BCnt (b.markShrunk (s0 + m) (s0 + n0)) := by
+  obtain ⟨i1, i2, i3⟩ := hI.inside s0 n0 hS
+  have hne : b.empty = false := by
+    cases he : b.empty
+    · rfl
+    · exact absurd hS (no_spans_of_unused hI.toBCore hC (hC.emp he) s0 n0)
+  have hcount := count_setRange_false b.used (s0 + m) (s0 + n0) (by omega) (by rw [hI.lenU]; exact i3) (by
+    intro j a c
+    exact (hI.used j (by omega)).mpr (Or.inr ⟨s0, n0, hS, by omega, c⟩))
+  have e1 : s0 + n0 - (s0 + m) = n0 - m := by omega
+  constructor
+  · simp [e1]; have := hC.cnt; omega
+  · intro he
+    exfalso
+    unfold Block.markShrunk at he
+    simp only at he
+    split at he <;> simp [hne] at he
+
+end AsmjitVerif.JitAlloc
+
+namespace AsmjitVerif.JitAlloc
+
+theorem BCnt.tryAlloc_some {b b' : Block} {S} {k idx : Nat} (hI : BInv b S) (hC : BCnt b) (hk : 0 < k)
+    (ht : b.tryAlloc k = (b', some idx)) : BCnt (b'.commit idx k) := by
+  unfold Block.tryAlloc at ht
+  split at ht
+  · rename_i hfast
+    simp at hfast ht
+    obtain ⟨hb, hidx⟩ := ht
+    subst hb hidx
+    obtain ⟨h1, h2, h3, h4⟩ := hI.incr hfast.1
+    unfold Block.commit
+    exact BCnt.markAllocated (b := { b with largest := b.largest - k, empty := false }) hC.cnt
+      (by show b.searchStart + k ≤ b.used.length; rw [hI.lenU]; omega) (fun j a _ => h2 j a)
+  · split at ht
+    · split at ht
+      · split at ht
+        · rename_i idx' hscan
+          simp at ht
+          obtain ⟨hb, hidx⟩ := ht
+          subst hb hidx
+          obtain ⟨s1, s2, s3, s4⟩ := scan_found b.used b.searchStart b.searchEnd k idx' hk hscan
+          unfold Block.commit
+          exact BCnt.markAllocated (b := { b with empty := false }) hC.cnt s3 s4
+        · split at ht <;> simp at ht
+      · simp at ht
+    · simp at ht
+
 end AsmjitVerif.JitAlloc
